@@ -21,7 +21,10 @@ RULE = ("get_cursor_position: EVERY string `pre` of length <= 4 (quick) / <= 5 (
         "non-trivial = distinct cases whose pre is non-empty, or that move the cursor, or that nest")
 ASSUMPTIONS = ["input ahead of the report contains no complete look-alike report (CSI digits ; digits R): the code cannot "
                "tell it from the real one (such inputs are still compared model<->code)",
-               "in_stream delivers characters (text stream); extra bytes are the encoding of the preceding characters",
+               "in_stream delivers characters (text stream); with a callback, the extra bytes are the preceding characters in the "
+               "stream's `.encoding` - a callback combined with a stream whose encoding is None/absent/cannot encode them is "
+               "outside the quantifier (representation-level tie only); WITHOUT a callback the stream's encoding must not "
+               "matter (ValueError for preceding input, the position otherwise): judged for encoding None, absent and ascii",
                "the production path `self.t.get_location()` (window.py:316, taken only when out_stream/in_stream are the "
                "process's real stdout/stdin: `_use_blessed`) is blessed's own query code: outside the model, the tie and the "
                "coverage of this check",
@@ -47,9 +50,9 @@ DIGITS = {c: int(c) for c in "0123456789" + ARABIC3}
 REPORT = re.compile(r"(\x1b\[|\x9b)\d+;\d+R", re.DOTALL)
 
 
-class Scripted:
-    """in_stream whose read(1) follows a script of events: a character, 'E' (raise OSError), 'Z' (return '')"""
-    encoding = "utf-8"
+class ScriptedBase:
+    """in_stream whose read(1) follows a script of events: a character, 'E' (raise OSError), 'Z' (return '').
+    This base class has NO `encoding` attribute at all (like a minimal file-like object)."""
 
     def __init__(self, events, hook=None):
         self.events = list(events)
@@ -72,6 +75,21 @@ class Scripted:
 
     def rest(self):
         return self.events[self.pos:]
+
+
+class Scripted(ScriptedBase):
+    encoding = "utf-8"
+
+
+class ScriptedNoneEncoding(ScriptedBase):
+    encoding = None                 # what a plain io.StringIO has
+
+
+class ScriptedAscii(ScriptedBase):
+    encoding = "ascii"
+
+
+STREAMS = {"utf-8": Scripted, "none": ScriptedNoneEncoding, "missing": ScriptedBase, "ascii": ScriptedAscii}
 
 
 class BlockedForever(Exception):
@@ -105,7 +123,7 @@ def run_gcp(c):
     w = window()
     got = []
     w.extra_bytes_callback = (lambda b: got.append(b)) if c["cb"] else None
-    w.in_stream = Scripted(c["events"])
+    w.in_stream = STREAMS[c.get("stream", "utf-8")](c["events"])
     w.out_stream.take()
     out = {}
     try:
@@ -114,7 +132,7 @@ def run_gcp(c):
         out["blocked"] = True
     except Exception as e:  # noqa: BLE001
         out["exc"] = type(e).__name__
-    out["callback"] = [b.decode("utf-8") for b in got]
+    out["callback"] = [b.decode("ascii" if c.get("stream") == "ascii" else "utf-8") for b in got]
     out["rest"] = w.in_stream.rest()
     out["wrote"] = w.out_stream.take()
     return out
@@ -134,7 +152,7 @@ def gcp_line(c):
 
 def gcp_oracle(c, o):
     """the property, for a case built as pre + report + post with no look-alike report in pre"""
-    if c.get("lookalike") or c.get("has_empty"):
+    if c.get("lookalike") or c.get("has_empty") or c.get("outside"):
         return None
     r, col = c["report"]
     if o["wrote"] != ["\x1b[6n"]:
@@ -184,6 +202,21 @@ def mk_gcp(ctx):
     ctx.exhaustive.append("get_cursor_position: runs of 1,2,15,16,17,64,250 consecutive OSErrors at 8 positions (before the "
                           "reply, inside the preceding input, at the report start, inside the report, before R) x 4 preceding "
                           "inputs x 2 CSI x 2 reports x trailing x callback: %d cases" % nrun)
+    # input streams without a usable `.encoding` (None as on io.StringIO; no such attribute; 'ascii' with non-ASCII
+    # input ahead of the report).  Without a callback nothing has to be encoded: input ahead of the report raises
+    # ValueError, none ahead returns the position - whatever the stream's encoding.  With a callback and an encoding
+    # that cannot produce the bytes the property has nothing to say (`outside`: compared at representation level only).
+    nenc = 0
+    for stream, cb, pre, csi, rep, post in itertools.product(("none", "missing", "ascii"), (True, False),
+                                                             ("", "a", "ab\x1b", "\x9bx", "\xe9"), (ESC + "[", CSI8),
+                                                             ((1, 1), (24, 80)), ("", "x")):
+        encodable = stream == "ascii" and all(ord(ch) < 128 for ch in pre)
+        cases.append(dict(kind="gcp", pre=pre, report=rep, post=list(post), cb=cb, stream=stream,
+                          events=list(pre + csi + "%d;%dR" % rep + post), lookalike=bool(REPORT.search(pre)),
+                          outside=bool(cb and pre and not encodable)))
+        nenc += 1
+    ctx.exhaustive.append("get_cursor_position: in_stream.encoding None / absent / 'ascii' x callback on/off x 5 preceding "
+                          "inputs (empty, ASCII, non-ASCII) x 2 CSI x 2 reports x trailing: %d cases" % nenc)
     r = ctx.rng
     for _ in range(6000 if ctx.thorough else 1500):
         # longer pre, possibly containing a complete look-alike; OSErrors; ''-reads; a non-ASCII digit
@@ -472,7 +505,11 @@ def check(ctx):
     def gcp_impl(c):
         return guard(gcp_impl0, outs, c)
 
-    ctx.tie("C18/get_cursor_position", gcp, gcp_line, gcp_impl)
+    inside = [c for c in gcp if not c.get("outside")]
+    outside = [c for c in gcp if c.get("outside")]
+    ctx.tie("C18/get_cursor_position", inside, gcp_line, gcp_impl)
+    # a callback together with a stream that cannot encode the preceding input: outside the property's quantifier
+    ctx.tie("C18/get_cursor_position unencodable input", outside, gcp_line, gcp_impl, level="representation")
     for c in gcp:
         o = outs[id(c)]
         ctx.count(dict(e=c["events"], cb=c["cb"]), nontrivial=bool(c["pre"]),
